@@ -14,6 +14,7 @@
   and the A-FSSH direction in `MudProof.Properties.C11`.
 -/
 import MudProof.Properties.C01
+import MudModel.Events
 
 namespace Mud.C04
 open Mud Finset C01
@@ -140,5 +141,175 @@ theorem hop_event_fields {N : ℕ} (m v d : Fin n → ℝ) (E : Fin N → ℝ) (
 /-- non-vacuity of `hop_allowed_up_iff`: a frustrated and an allowed upward hop in 2-D -/
 example : ∃ (m d : Fin 2 → ℝ), (∀ i, 0 < m i) ∧ (∃ i, d i ≠ 0) :=
   ⟨![1, 3], ![1, 2], by intro i; fin_cases i <;> simp, ⟨0, by simp⟩⟩
+
+/-! ### event log vs. logged active state over a whole run (every step logged) -/
+
+section events
+open Mud.Events
+
+/-- the run logs one more snapshot than there are steps -/
+theorem run_length : ∀ (k a : ℕ) (atts : List Attempt), (run k a atts).1.length = atts.length + 1 := by
+  intro k a atts
+  induction atts generalizing k a with
+  | nil => simp [run]
+  | cons att rest ih =>
+    cases att with
+    | none => simp [run, ih]
+    | hop t acc => cases acc <;> simp [run, ih]
+
+/-- the first logged active state is the starting one -/
+@[simp] theorem run_head (k a : ℕ) (atts : List Attempt) : (run k a atts).1[0]?.getD 0 = a := by
+  cases atts with
+  | nil => simp [run]
+  | cons att rest =>
+    cases att with
+    | none => simp [run]
+    | hop t acc => cases acc <;> simp [run]
+
+/-- **T6a.** between consecutive snapshots the active state changes only through an accepted hop of that step, and then
+    to that hop's target: `active[i+1] = target` if step `i` had an accepted attempt, `= active[i]` otherwise -/
+theorem active_step : ∀ (atts : List Attempt) (k a : ℕ) (i : ℕ) (hi : i < atts.length),
+    (run k a atts).1.getD (i + 1) 0 =
+      match atts[i] with
+      | .hop t true => t
+      | _ => (run k a atts).1.getD i 0 := by
+  intro atts
+  induction atts with
+  | nil => intro k a i hi; simp at hi
+  | cons att rest ih =>
+    intro k a i hi
+    cases i with
+    | zero =>
+      cases att with
+      | none => simp [run, run_head]
+      | hop t acc => cases acc <;> simp [run, run_head]
+    | succ i =>
+      have hi' : i < rest.length := by simpa using hi
+      cases att with
+      | none =>
+        simp only [run, List.getD_cons_succ, List.getElem_cons_succ]
+        exact ih (k + 1) a i hi'
+      | hop t acc =>
+        cases acc
+        · simp only [run, List.getD_cons_succ, List.getElem_cons_succ]
+          exact ih (k + 1) a i hi'
+        · simp only [run, List.getD_cons_succ, List.getElem_cons_succ]
+          exact ih (k + 1) t i hi'
+
+/-- **every logged event corresponds to an attempt**: it carries the time index of a step that had an attempt, the active
+    state logged at that step as `from`, the attempt's target as `to`, and its kind says whether it was accepted -/
+theorem event_sound : ∀ (atts : List Attempt) (k a : ℕ) (e : Event), e ∈ (run k a atts).2 →
+    ∃ i, ∃ hi : i < atts.length, e.step = k + i ∧ atts[i] = .hop e.dst e.isHop ∧ e.src = (run k a atts).1.getD i 0 := by
+  intro atts
+  induction atts with
+  | nil => intro k a e he; simp [run] at he
+  | cons att rest ih =>
+    intro k a e he
+    have lift : ∀ a' : ℕ, e ∈ (run (k + 1) a' rest).2 →
+        ∃ i, ∃ hi : i < (att :: rest).length, e.step = k + i ∧ (att :: rest)[i] = .hop e.dst e.isHop ∧
+          e.src = (a :: (run (k + 1) a' rest).1).getD i 0 := by
+      intro a' h
+      obtain ⟨i, hi, h1, h2, h3⟩ := ih (k + 1) a' e h
+      exact ⟨i + 1, by simpa using hi, by omega, by simpa using h2, by simpa using h3⟩
+    cases att with
+    | none =>
+      simp only [run] at he ⊢
+      exact lift a he
+    | hop t acc =>
+      cases acc
+      · simp only [run, List.mem_cons] at he ⊢
+        rcases he with rfl | he
+        · exact ⟨0, by simp, by simp, by simp, by simp⟩
+        · exact lift a he
+      · simp only [run, List.mem_cons] at he ⊢
+        rcases he with rfl | he
+        · exact ⟨0, by simp, by simp, by simp, by simp⟩
+        · exact lift t he
+
+/-- **every attempt is logged**: an accepted one as a `hop` event, a rejected one as a `frustrated_hop` event -/
+theorem event_complete : ∀ (atts : List Attempt) (k a : ℕ) (i : ℕ) (hi : i < atts.length) (t : ℕ) (acc : Bool),
+    atts[i] = .hop t acc → (⟨acc, k + i, (run k a atts).1.getD i 0, t⟩ : Event) ∈ (run k a atts).2 := by
+  intro atts
+  induction atts with
+  | nil => intro k a i hi; simp at hi
+  | cons att rest ih =>
+    intro k a i hi t acc h
+    cases i with
+    | zero =>
+      simp only [List.getElem_cons_zero] at h
+      subst h
+      cases acc <;> simp [run]
+    | succ i =>
+      have hi' : i < rest.length := by simpa using hi
+      simp only [List.getElem_cons_succ] at h
+      cases att with
+      | none =>
+        simp only [run, List.getD_cons_succ]
+        have := ih (k + 1) a i hi' t acc h
+        rwa [show k + 1 + i = k + (i + 1) by omega] at this
+      | hop t' acc' =>
+        cases acc'
+        · simp only [run, List.getD_cons_succ, List.mem_cons]
+          right
+          have := ih (k + 1) a i hi' t acc h
+          rwa [show k + 1 + i = k + (i + 1) by omega] at this
+        · simp only [run, List.getD_cons_succ, List.mem_cons]
+          right
+          have := ih (k + 1) t' i hi' t acc h
+          rwa [show k + 1 + i = k + (i + 1) by omega] at this
+
+/-- events are recorded in strictly increasing step order: at most one event per step -/
+theorem event_steps_increasing : ∀ (atts : List Attempt) (k a : ℕ),
+    ((run k a atts).2.map (·.step)).Pairwise (· < ·) ∧ ∀ e ∈ (run k a atts).2, k ≤ e.step := by
+  intro atts
+  induction atts with
+  | nil => intro k a; simp [run]
+  | cons att rest ih =>
+    intro k a
+    cases att with
+    | none =>
+      simp only [run]
+      obtain ⟨h1, h2⟩ := ih (k + 1) a
+      exact ⟨h1, fun e he => by have := h2 e he; omega⟩
+    | hop t acc =>
+      cases acc
+      · simp only [run, List.map_cons, List.pairwise_cons, List.mem_cons]
+        obtain ⟨h1, h2⟩ := ih (k + 1) a
+        refine ⟨⟨?_, h1⟩, ?_⟩
+        · intro s hs
+          obtain ⟨e, he, rfl⟩ := List.mem_map.mp hs
+          have := h2 e he; omega
+        · rintro e (rfl | he)
+          · simp
+          · have := h2 e he; omega
+      · simp only [run, List.map_cons, List.pairwise_cons, List.mem_cons]
+        obtain ⟨h1, h2⟩ := ih (k + 1) t
+        refine ⟨⟨?_, h1⟩, ?_⟩
+        · intro s hs
+          obtain ⟨e, he, rfl⟩ := List.mem_map.mp hs
+          have := h2 e he; omega
+        · rintro e (rfl | he)
+          · simp
+          · have := h2 e he; omega
+
+/-- **T6b.** the number of `hop` events equals the number of accepted attempts, the number of `frustrated_hop`
+    events the number of rejected ones: no other events of these kinds exist -/
+theorem event_counts (k a : ℕ) (atts : List Attempt) :
+    ((run k a atts).2.filter (·.isHop)).length = (atts.filter (fun x => match x with | .hop _ true => true | _ => false)).length ∧
+    ((run k a atts).2.filter (fun e => !e.isHop)).length
+      = (atts.filter (fun x => match x with | .hop _ false => true | _ => false)).length := by
+  induction atts generalizing k a with
+  | nil => simp [run]
+  | cons att rest ih =>
+    cases att with
+    | none => simpa [run] using ih (k + 1) a
+    | hop t acc =>
+      cases acc
+      · have := ih (k + 1) a
+        simp [run, this.1, this.2]
+      · have := ih (k + 1) t
+        simp [run, this.1, this.2]
+
+end events
 
 end Mud.C04
